@@ -303,6 +303,9 @@ impl UringWorker {
         reply_tx,
       } => {
         let ProtocolConfig::Zmtp(engine_cfg) = protocol_config;
+        // unique per connection in this process (the worker serves every context)
+        static NEXT_CONN_TOKEN: std::sync::atomic::AtomicU64 = std::sync::atomic::AtomicU64::new(1);
+        let conn_token = NEXT_CONN_TOKEN.fetch_add(1, Ordering::Relaxed);
 
         let sndhwm = engine_cfg.sndhwm.max(1);
         let (egress_tx, egress_rx) = fibre::mpsc::bounded::<crate::message::FrameBatch>(sndhwm);
@@ -316,6 +319,7 @@ impl UringWorker {
           std::sync::Arc::clone(&self.worker_asleep),
           std::sync::Arc::clone(&self.work_signal_gen),
           engine_cfg.sndtimeo,
+          conn_token,
         ));
 
         let worker_io_config = std::sync::Arc::new(WorkerIoConfig {
@@ -323,6 +327,7 @@ impl UringWorker {
           endpoint_uri,
           target_endpoint_uri,
           connection_iface,
+          conn_token,
         });
 
         let use_zc = self.cfg_send_zerocopy_enabled && self.send_buffer_pool.is_some();
@@ -433,12 +438,18 @@ impl UringWorker {
       UringOpRequest::ShutdownConnectionHandler {
         user_data,
         fd,
+        conn_token,
         reply_tx,
       } => {
         // Fast path: if the handler is already gone (closed by a prior teardown), reply
         // with success immediately. Without this guard, SocketCore would block for 5 seconds
-        // waiting for a CloseFd CQE that will never arrive.
-        if !self.handler_manager.contains_handler_for(fd) {
+        // waiting for a CloseFd CQE that will never arrive. "Gone" includes: the descriptor
+        // number now belongs to a newer connection, which this request must not touch.
+        let is_the_connection_meant = self
+          .handler_manager
+          .get_mut(fd)
+          .map_or(false, |h| conn_token == 0 || h.io_config().conn_token == conn_token);
+        if !is_the_connection_meant {
           let ack = UringOpCompletion::ShutdownConnectionHandlerComplete { user_data, fd };
           let _ = reply_tx.send(Ok(ack));
           return;
